@@ -1,12 +1,19 @@
 #!/usr/bin/env bash
-# run every claimed quick check on the unchanged tree; refuse to leave stale evidence behind
-cd /verif || exit 3
+# Run every claimed quick check on the unchanged tree, each with its evidence file removed first
+# (the run has to rewrite it), then validate every evidence record against the schema and the
+# claim in MANIFEST.json.  Evidence is committed only after this script exits 0.
+cd "$(dirname "$0")/.." || exit 3
 git -C /repo diff --quiet || { echo "/repo has uncommitted changes"; exit 3; }
-unset VERIF_REPO
+unset VERIF_REPO VERIF_EVIDENCE_DIR
+out="$(mktemp -d /var/tmp/verif_runall.XXXXXX)"
 rc=0
 for pid in $(python3 -c "import json;print(' '.join(c['property_id'] for c in json.load(open('MANIFEST.json'))['checks']))"); do
-  bin/vcheck "$pid" --tier quick > "/tmp/runall_$pid.txt" 2>&1; e=$?
-  echo "$pid exit=$e $(grep -E 'obligations discharged' /tmp/runall_$pid.txt | cut -c1-120)"
-  [ $e -ne 0 ] && { rc=1; grep -E "VIOLATION|UNDEC|CHECKER" /tmp/runall_$pid.txt | head -5; }
+  rm -f "evidence/$pid.json"
+  bin/vcheck "$pid" --tier quick > "$out/$pid.txt" 2>&1; e=$?
+  echo "$pid exit=$e $(grep -E 'obligations discharged' "$out/$pid.txt" | cut -c1-120)"
+  [ $e -ne 0 ] && { rc=1; grep -E "VIOLATION|UNDEC|CHECKER" "$out/$pid.txt" | head -5; }
+  grep -q "VIOLATION" "$out/$pid.txt" && rc=1
 done
+.venv/bin/python tools/validate_evidence.py || rc=1
+rm -rf "$out"
 exit $rc
